@@ -272,7 +272,7 @@ P("C13", "proof", "Lean 4 byte-level theorem (cut at the end of the stem) + mode
   modules=["TypedPathVerif.Props.C13c", "TypedPathVerif.Props.C12b", "TypedPathVerif.Props.C14", "TypedPathVerif.Props.C13b", "TypedPathVerif.Props.C07"],
   rule=NONTRIV + "(path, extension) pairs; non-trivial = file name followed by separators or `.`", design_ref="§5 C13")
 
-P("C14", "proof", "Lean 4 theorems (UTF-8 validity is preserved by every byte-level operation and mutation history) + UTF-8 family vs byte family transcripts (delegation) + model/code correspondence",
+P("C14", "proof", "Lean 4 theorems (UTF-8 validity is preserved by every byte-level operation and mutation history) + UTF-8 family vs byte family transcripts (delegation) + model/code correspondence; thorough tier: measured function coverage of the UTF-8 source files by the harness",
   "Spec/Utf8.lean defines well-formed UTF-8 (RFC 3629; validB_iff ties the executable check to the inductive "
   "definition, and the check is compared with core::str::from_utf8 on every run). Proved in Lean, both encodings, for "
   "every valid input: the Windows prefix is cut on a character boundary (prefix_split_valid, through all six prefix "
@@ -295,7 +295,7 @@ P("C14", "proof", "Lean 4 theorems (UTF-8 validity is preserved by every byte-le
   modules=["TypedPathVerif.Props.SurfaceUtf8", "TypedPathVerif.Lemmas.Utf8"],
   rule="strings over {/ \\ . : a é 日 😀 ? C} + prefix seeds with non-ASCII payloads + random; non-trivial = multi-byte character and >= 2 components", design_ref="§5 C14")
 
-P("C15", "translation_validation", "whole-family method transcripts: typed / UTF-8 typed / platform / UTF-8 platform wrappers vs the wrapped concrete types, borrowed and owned, variant tag after every call + Lean theorems for the derive rule + model differential",
+P("C15", "translation_validation", "whole-family method transcripts: typed / UTF-8 typed / platform / UTF-8 platform wrappers vs the wrapped concrete types, borrowed and owned, variant tag after every call + Lean theorems for the derive rule + model differential; thorough tier: measured function coverage of src/typed by the harness",
   "Every wrapper method (read-only, mutating, conversions, iterators forwards / backwards / alternating) is run on both "
   "variants, on the borrowed and the owned type, and compared line by line with the same method on the wrapped concrete "
   "type; the variant is checked after every call; platform and UTF-8 platform types are compared with the native "
@@ -379,7 +379,7 @@ P("C18", "proof", "Lean 4 theorems: byte-level fault-capable transcriptions (che
               "site table; stack, allocation and time are explored under catch_unwind with a time limit on long inputs of every shape.",
   design_ref="§5 C18", extra_tb=["gen/partial.py (partial-operation site table)"])
 
-P("C19", "translation_validation", "conversion chains vs std (implementation vs oracle) + a Lean obligation tying the chains to the regenerated list of conversion impls",
+P("C19", "translation_validation", "conversion chains vs std (implementation vs oracle) + a Lean obligation tying the chains to the regenerated list of conversion impls; thorough tier: measured function coverage of the remaining source files by the harness",
   "Every conversion the crate offers is driven on valid and invalid UTF-8 byte strings and compared with the input bytes, "
   "std's from_utf8 / from_utf8_lossy. gen/api.py regenerates, on every run, the list of every conversion / formatting "
   "trait impl the source declares (AsRef, From, TryFrom, TryAsRef, Borrow, FromStr, Extend, FromIterator, IntoIterator, "
